@@ -182,22 +182,32 @@ func zipvecMain(args []string) int {
 	// callers reuse read buffers: the same backing array successively holds different archives of
 	// the same length (often with identical fixed header parts: no time stamps, sizes in the
 	// descriptor); the verdict must be the one obtained on a private copy
-	reuse := map[int][]byte{}
+	type pendingReuse struct {
+		raw         []byte
+		fresh, what string
+	}
+	pending := map[int][]pendingReuse{}
 	var reused, reusedSameHeader int64
 	reuseCheck := func(raw []byte, fresh string, what string) {
-		buf, ok := reuse[len(raw)]
-		if !ok {
-			buf = make([]byte, len(raw))
-			reuse[len(raw)] = buf
-		} else {
-			reused++
-			if len(raw) >= 30 && bytes.Equal(buf[:30], raw[:30]) {
-				reusedSameHeader++
+		pending[len(raw)] = append(pending[len(raw)], pendingReuse{raw, fresh, what})
+	}
+	// second pass, after all private-copy detections: archives of one length follow each other in ONE
+	// buffer with no other detection in between (what a caller with a pooled read buffer does)
+	runReuse := func() {
+		for l, list := range pending {
+			buf := make([]byte, l)
+			for i, p := range list {
+				if i > 0 {
+					reused++
+					if l >= 30 && bytes.Equal(buf[:30], p.raw[:30]) {
+						reusedSameHeader++
+					}
+				}
+				copy(buf, p.raw)
+				if got := mimetype.Detect(buf).String(); got != p.fresh {
+					rep.violate(Violation{Property: "C19", Kind: "reused-buffer", Text: p.what, Detail: fmt.Sprintf("in a reused buffer (previous occupant: %s) Detect reports %s, on a private copy %s", list[max(i-1, 0)].what, got, p.fresh), Key: "C19|reuse|" + p.what})
+				}
 			}
-		}
-		copy(buf, raw)
-		if got := mimetype.Detect(buf).String(); got != fresh {
-			rep.violate(Violation{Property: "C19", Kind: "reused-buffer", Text: what, Detail: fmt.Sprintf("in a reused buffer Detect reports %s, on a private copy %s", got, fresh), Key: "C19|reuse|" + what})
 		}
 	}
 	err := tlcVectorLines(*in, func(b []byte) {
@@ -303,6 +313,7 @@ func zipvecMain(args []string) int {
 			}
 		}
 	}
+	runReuse()
 	mimetype.SetLimit(3072)
 	rep.Evaluations = n
 	rep.Nontrivial = positive + odfN
